@@ -96,12 +96,16 @@ class UpdateReferences:
       elif isinstance(elem, gfapy.OrientedLine):
         if elem.line is oldref:
           if hasattr(oldref, "_complement_ends") and \
-              oldref._complement_ends(newref) and \
-              not (oldref.from_end == newref.from_end and
-                   oldref.to_end == newref.to_end):
+              oldref._complement_ends(newref):
             # (the overlap of a placeholder link may be unspecified: the
-            #  direction is decided by the segment ends alone)
-            elem.orient = gfapy.invert(elem.orient)
+            #  direction is decided by the segment ends alone, unless
+            #  the two directions have the same ends)
+            if not (oldref.from_end == newref.from_end and
+                    oldref.to_end == newref.to_end) or \
+               (oldref.overlap and newref.overlap and
+                oldref.overlap != newref.overlap and
+                oldref.overlap == newref.overlap.complement()):
+              elem.orient = gfapy.invert(elem.orient)
           elem.line = newref
           found = True
     if newref is None and found:
